@@ -171,6 +171,7 @@ func genC04(e *emitter, tier string, seed uint64) {
 			}
 			// spent value and spent script
 			run("spent-value", cloneTx(st), pos, sats[pos]+1, locks[pos])
+			run("spent-value-zero", cloneTx(st), pos, 0, locks[pos]) // the tx object still carries the signed value
 			ml := append([]byte{}, locks[pos]...)
 			ml = append(ml, 0x61)
 			run("spent-script", cloneTx(st), pos, sats[pos], ml)
